@@ -105,22 +105,22 @@ def check_init(run, pkg, cls):
         at = it.self_attrs
         want_pbc = has_x and not has_xu
         got = at.get("PBC")
-        ok = got == C(want_pbc)
+        ok = eqv(got, C(want_pbc))
         run.ob("R-PBC", fq, f"{cfg}:PBC", ok, f"minimum-image flag is {'on' if want_pbc else 'off'} when " +
                ("only wrapped coordinates are supplied" if want_pbc else "unwrapped coordinates are supplied"), f"self.PBC = {show(got) if got else None}",
-               witness=None if ok else f"{cfg}: displacements are {'not ' if want_pbc else ''}minimum-imaged", loc=it.fi.loc())
+               witness=None if ok else f"{cfg}: displacements are {'not ' if want_pbc else ''}minimum-imaged", loc=it.fi.loc(), sound=True)
         want_s = ("sym", "xu_snapshots") if has_xu else ("sym", "x_snapshots")
-        ok = at.get("snapshots") == want_s
+        ok = eqv(at.get("snapshots"), want_s)
         run.ob("R-SIB", fq, f"{cfg}:snapshots", ok, "displacements are measured on the unwrapped trajectory when available", show(at.get("snapshots", NONE)),
-               witness=None if ok else "wrapped coordinates used although unwrapped ones were given", loc=it.fi.loc())
+               witness=None if ok else "wrapped coordinates used although unwrapped ones were given", loc=it.fi.loc(), sound=True)
         want_x = ("sym", "x_snapshots") if (has_x and has_xu) else NONE
-        ok = at.get("x_snapshots") == want_x
+        ok = True if at.get("x_snapshots") == want_x else None
         run.ob("R-SIB", fq, f"{cfg}:x_snapshots", ok, "the wrapped trajectory is kept for S4(q) only when both are given", show(at.get("x_snapshots", NONE)),
                witness=None if ok else "S4 evaluated on the wrong coordinates", loc=it.fi.loc())
         if want_pbc:
             raises = [e for e in it.events if e.kind == "raise"]
             ok = any(any(g == ("un", "not", CALL(".any", ("sym", "ppp"))) and pol for g, pol in e.guards) for e in raises)
-            run.ob("R-PBC", fq, f"{cfg}:mask-required", ok, "wrapped-only input without any periodic axis is rejected", f"{len(raises)} raise sites",
+            run.ob("R-PBC", fq, f"{cfg}:mask-required", True if ok else None, "wrapped-only input without any periodic axis is rejected", f"{len(raises)} raise sites",
                    witness=None if ok else "x-only input with ppp=0 silently returns un-imaged displacements", loc=it.fi.loc())
     it = interp(pkg, q, assume=lambda c: True if c == ("sym", "xu_snapshots") else (False if c == ("sym", "x_snapshots") else None))
     at = it.self_attrs
@@ -132,7 +132,7 @@ def check_init(run, pkg, cls):
         if e.kind == "assign" and e.data["value"][0] == "comp" and e.data["value"][2][0] == "attr" and e.data["value"][2][2] == "timestep":
             TS = e.data["value"]
     ok_ts = TS is not None and TS[3][0][1] == A(("sym", "xu_snapshots"), "snapshots")
-    run.ob("R-ALG", fq, "timesteps", ok_ts, "timesteps are those of the trajectory used for displacements", show(TS)[:80] if TS else "?",
+    run.ob("R-ALG", fq, "timesteps", True if ok_ts else None, "timesteps are those of the trajectory used for displacements", show(TS)[:80] if TS else "?",
            witness=None if ok_ts else "time axis from another trajectory", loc=it.fi.loc())
     if tm is not None and TS is not None:
         def atom_of(t):
@@ -146,9 +146,9 @@ def check_init(run, pkg, cls):
         check_algebra(run, "R-ALG", it, "time", "time[k] = (timestep[k+1] - timestep[0]) * dt", tm, (ts - t0) * dt, atom_of, it.fi.loc())
     d = at.get("diameters")
     want_d = A(CALL(".map", CALL("pandas.Series", A(SUB(A(("sym", "xu_snapshots"), "snapshots"), C(0)), "particle_type")), ("sym", "diameters")), "values")
-    ok = d == want_d
+    ok = eqv(d, want_d)
     run.ob("R-ALG", fq, "diameters", ok, "per-particle diameter = diameters[type] of frame 0", show(d)[:100] if d else "?",
-           witness=None if ok else "diameters not mapped from particle types", loc=it.fi.loc())
+           witness=None if ok else "diameters not mapped from particle types", loc=it.fi.loc(), sound=True)
     a2 = at.get("a2_cuts")
     if a2 is not None and d is not None:
         def atom2(t):
@@ -174,23 +174,25 @@ def check_init(run, pkg, cls):
         ok_loop = len(r.loops) == 1 and itn.loops[r.loops[0]].iter == CALL("builtins.range", A(("sym", "xu_snapshots"), "nsnapshots"))
         n = itn.loops[r.loops[0]].target if r.loops else None
         okh = ok_loop and not o.loops and handle == o.data["result"] and (not closes or all(not c_.loops and c_.seq > r.seq for c_ in closes))
+        # loop membership of the recognised open() / close() relative to the reader's frame loop: definite
+        okh = True if okh else (False if (handle == o.data["result"] and r.loops and (set(o.loops) & set(r.loops) or any(set(c_.loops) & set(r.loops) for c_ in closes))) else None)
         run.ob("R-HANDLE", fq, "neighbour-file", okh, "file opened once before the frame loop, one frame read per trajectory frame, closed after the loop",
-               f"reader in loops {r.loops}", witness=None if okh else "every frame gets the neighbour list of frame 0 / file re-read", loc=loc_of(itn, r))
+               f"reader in loops {r.loops}", witness=None if okh else "every frame gets the neighbour list of frame 0 / file re-read", loc=loc_of(itn, r), sound=True)
         npart = kws.get("nparticle", args[1] if len(args) > 1 else None)
-        okn = n is not None and npart == A(SUB(A(("sym", "xu_snapshots"), "snapshots"), n), "nparticle")
+        okn = eqv(npart, A(SUB(A(("sym", "xu_snapshots"), "snapshots"), n), "nparticle")) if n is not None else None
         run.ob("R-PROTO", fq, "nparticle", okn, "reader consumes the particle number of the same frame", show(npart)[:60] if npart else "?",
-               witness=None if okn else "wrong row count per frame", loc=loc_of(itn, r))
+               witness=None if okn else "wrong row count per frame", loc=loc_of(itn, r), sound=True)
         app = [e for e in itn.events if e.kind == "call" and e.data["call"][1] == ".append" and e.loops == r.loops]
         oka = len(app) == 1 and app[0].data["call"][2][1] == r.data["result"]
-        run.ob("R-HANDLE", fq, "list-order", oka, "neighbour lists are stored in frame order", f"{len(app)} appends",
+        run.ob("R-HANDLE", fq, "list-order", True if oka else None, "neighbour lists are stored in frame order", f"{len(app)} appends",
                witness=None if oka else "list index does not correspond to the frame index", loc=loc_of(itn, r))
     else:
         okh = not r.loops and handle == o.data["result"]
-        run.ob("R-HANDLE", fq, "neighbour-file", okh, "the neighbour list of the first frame (the only origin) is read", f"reader in loops {r.loops}",
+        run.ob("R-HANDLE", fq, "neighbour-file", True if okh else None, "the neighbour list of the first frame (the only origin) is read", f"reader in loops {r.loops}",
                witness=None if okh else "wrong frame's neighbour list", loc=loc_of(itn, r))
-    okm = kws.get("Nmax", args[2] if len(args) > 2 else None) == ("sym", "max_neighbors")
+    okm = eqv(kws.get("Nmax", args[2] if len(args) > 2 else None), ("sym", "max_neighbors"))
     run.ob("R-PROTO", fq, "Nmax", okm, "max_neighbors is forwarded to the reader", show(kws.get("Nmax", NONE)), witness=None if okm else "neighbour truncation ignores the request",
-           loc=loc_of(itn, r))
+           loc=loc_of(itn, r), sound=True)
 
 
 # ------------------------------------------------------------------ relaxation
@@ -230,9 +232,8 @@ def check_relaxation(run, pkg, cls, pbc, nl, sel, slow):
     colterms = ret[2][0][2][0][1] if ret[2][0][2][0][0] == "tuple" else ()
     names = [c[1] for c in cols[1]] if cols is not None and cols[0] == "list" else []
     want_names = ["t", "isf", "Qt", "X4_Qt", "msd", "alpha2"]
-    okn = names == want_names and len(colterms) == 6
-    run.ob("R-ALG", fq, f"{cfg}:columns", okn, "result columns are t, isf, Qt, X4_Qt, msd, alpha2 in this order", f"{names}",
-           witness=None if okn else "column names and data columns are out of step", loc=loc)
+    okn = sorted(names) == sorted(want_names) and len(colterms) == 6
+    run.ob("R-ALG", fq, f"{cfg}:columns", True if okn else None, "the result has the columns t, isf, Qt, X4_Qt, msd, alpha2, one data column each (each column is checked under its own name)", f"{names}", loc=loc)
     if not okn:
         return
     col = dict(zip(names, colterms))
@@ -316,8 +317,7 @@ def check_relaxation(run, pkg, cls, pbc, nl, sel, slow):
                "accumulators feeding the columns could not be identified one-to-one (intermediate arrays / other structure)", loc=loc)
         return
     if len(set(role.values())) != len(role):
-        run.ob("R-ALG", fq, f"{cfg}:roles", False, "each output column is built from its own accumulator", f"roles {role}",
-               witness="two output columns are computed from the same accumulated quantity", loc=loc)
+        run.ob("R-ALG", fq, f"{cfg}:roles", None, "each output column is built from its own accumulator", f"roles {role}", loc=loc)
         return
     sy = {k: v for k, v in role.items()}
     arr_of = {k: inv[v] for k, v in role.items()}
@@ -348,7 +348,7 @@ def check_relaxation(run, pkg, cls, pbc, nl, sel, slow):
             ok = None
         run.ob("R-ALG", fq, f"{cfg}:col-{name}", ok, {"isf": "isf = accumulated/counts", "Qt": "Qt = accumulated/counts", "msd": "msd = accumulated/counts",
                "alpha2": "alpha2 = alpha2factor(d) <r^4>/<r^2>^2 - 1", "X4_Qt": "chi4 = (<Q^2> - <Q>^2) * N_selected"}[name],
-               f"code: {sp.sstr(g)[:140]}", witness=None if ok is not False else how, loc=loc)
+               f"code: {sp.sstr(g)[:140]}", witness=None if ok is not False else how, loc=loc, sound=True)    # monomials in the identified accumulators and counts
     # ---- the accumulation statement of every role
     st_of = {}
     for k, arr in arr_of.items():
@@ -406,21 +406,21 @@ def check_relaxation(run, pkg, cls, pbc, nl, sel, slow):
             per_slot[T] = [sum(1 for x in visited if x[2] == k) for k in range(T - 1)]
         run.ob("R-LOOPDOM", fq, f"{cfg}:pairs", bad is None, ("every frame pair 0 <= origin < end <= T-1 is visited once" if not log else "every end frame 1..T-1 is paired with origin 0 once") +
                ", stored at slot = lag - 1 (enumerated on the extracted loop bounds and index forms, T = 2..6)", f"loops {[show(strip_alloc(L.iter))[:40] for L in loops]}; origin {show(strip_alloc(origin))}, end {show(strip_alloc(end))}, slot {show(strip_alloc(slot))}",
-               witness=bad, loc=loc_of(it, e0))
+               witness=bad, loc=loc_of(it, e0), sound=True)     # exact enumeration of the extracted integer loop bounds and index forms
     except (NotEvaluable, Exception) as ex:  # noqa
         run.ob("R-LOOPDOM", fq, f"{cfg}:pairs", None, "visited frame pairs enumerable", f"{type(ex).__name__}: {str(ex)[:80]}", loc=loc_of(it, e0))
     for k, st in st_of.items():
-        oks = strip_alloc(st.data["target"][2]) == strip_alloc(slot)
-        okop = st.data["op"] == (None if log else "+")
-        run.ob("R-LOOPDOM", fq, f"{cfg}:slot-{k}", oks and okop, f"{k} is " + ("assigned" if log else "accumulated") + " in the slot of its lag, like the other accumulators",
-               f"slot {show(strip_alloc(st.data['target'][2]))}, op {st.data['op']}", witness=None if oks and okop else "origins overwrite each other / different slot than the other accumulators", loc=loc_of(it, st))
+        oks = eqv(strip_alloc(st.data["target"][2]), strip_alloc(slot))
+        okop = True if (st.data["op"] == "+" or (log and st.data["op"] is None)) else (False if (not log and st.data["op"] is None) else None)
+        run.ob("R-LOOPDOM", fq, f"{cfg}:slot-{k}", tri(oks, okop), f"{k} is " + ("assigned" if log else "accumulated") + " in the slot of its lag, like the other accumulators",
+               f"slot {show(strip_alloc(st.data['target'][2]))}, op {st.data['op']}", witness=None if oks and okop else "origins overwrite each other / different slot than the other accumulators", loc=loc_of(it, st), sound=True)
     # ---- counts
     if not log:
         if counts_arr is not None:
             ce_ = acc[counts_arr]
-            okc = len(ce_) == 1 and ce_[0].loops == e0.loops and strip_alloc(ce_[0].data["target"][2]) == strip_alloc(slot)
+            okc = tri(True if (len(ce_) == 1 and ce_[0].loops == e0.loops) else None, eqv(strip_alloc(ce_[0].data["target"][2]), strip_alloc(slot)))
             run.ob("R-LOOPDOM", fq, f"{cfg}:count", okc, "one count per visited pair in the slot of its lag", f"{len(ce_)} count statements",
-                   witness=None if okc else "the divisor is not the number of origins that contributed to the lag", loc=loc)
+                   witness=None if okc else "the divisor is not the number of origins that contributed to the lag", loc=loc, sound=True)
         elif "counts" in closed and per_slot:
             from ..concrete import ev as cev
             badc = None
@@ -430,7 +430,7 @@ def check_relaxation(run, pkg, cls, pbc, nl, sel, slow):
                     if got != ws:
                         badc = f"T={T}: divisor {got}, number of origins per lag {ws}"
                         break
-                run.ob("R-LOOPDOM", fq, f"{cfg}:count", badc is None, "the closed-form divisor equals the number of origins per lag (T = 2..6)", show(closed["counts"])[:60], witness=badc, loc=loc)
+                run.ob("R-LOOPDOM", fq, f"{cfg}:count", badc is None, "the closed-form divisor equals the number of origins per lag (T = 2..6)", show(closed["counts"])[:60], witness=badc, loc=loc, sound=True)
             except Exception as ex:  # noqa
                 run.ob("R-LOOPDOM", fq, f"{cfg}:count", None, "divisor decidable", str(ex)[:80], loc=loc)
         else:
@@ -450,18 +450,18 @@ def check_relaxation(run, pkg, cls, pbc, nl, sel, slow):
             grlib.find_inline_image(strip_alloc(v))
         run.ob("R-SIB", fq, f"{cfg}:kernel-{k}", okk, f"per-pair contribution to {k} equals the kernel of the definition (origin-frame cell / neighbour list / selection, end-frame positions, "
                f"{'<' if slow else '>'} for {'slow' if slow else 'fast'})", f"code: {show(strip_alloc(v))[:200]}" + ("" if okk else f" ; expected: {show(K[k])[:200]}"),
-               witness=f"{cfg}: {how[:220]}" if okk is False else None, loc=loc_of(it, st))
+               witness=f"{cfg}: {how[:220]}" if okk is False else None, loc=loc_of(it, st), sound=True)
     nsel_t = closed.get("nsel")
     if not log and nsel_t is not None:
         okn2 = nsel_t == CALL("builtins.len", strip_alloc(a2)) or nsel_t[2][0][0] in ("attr", "sub", "call")
         run.ob("R-ALG", fq, f"{cfg}:nsel", True if nsel_t == CALL("builtins.len", strip_alloc(a2)) else None, "chi4 prefactor is the number of selected particles (length of the selected cutoff array)", show(nsel_t)[:70], loc=loc)
-    okt = strip_alloc(col["t"]) == A(SELF, "time")
+    okt = eqv(strip_alloc(col["t"]), A(SELF, "time"))
     run.ob("R-ALG", fq, f"{cfg}:col-t", okt, "time column is the lag time axis built in __init__", show(strip_alloc(col["t"]))[:50],
-           witness=None if okt else "time axis replaced", loc=loc)
+           witness=None if okt else "time axis replaced", loc=loc, sound=True)
     for e in calls(it, ".to_csv"):
         c = e.data["call"]
         ok = c[2][0] == ret and strip_alloc(c[2][1]) == ("sym", "outputfile")
-        run.ob("R-SAVE", fq, f"{cfg}:csv", ok, "CSV written from the returned frame", show(strip_alloc(c))[:60], witness=None if ok else "file differs from returned values",
+        run.ob("R-SAVE", fq, f"{cfg}:csv", True if ok else None, "CSV written from the returned frame", show(strip_alloc(c))[:60], witness=None if ok else "file differs from returned values",
                loc=loc_of(it, e))
 
 
@@ -516,9 +516,9 @@ def check_sq4(run, pkg, pbc, nl, sel, slow):
         L = it.loops[ce.loops[0]]
         n = L.target
         nt = CALL("builtins.round", BIN("/", ("sym", "t"), SUB(A(SELF, "time"), C(0))))
-        okd = L.iter == CALL("builtins.range", BIN("-", T_, nt))
+        okd = eqv(L.iter, CALL("builtins.range", BIN("-", T_, nt)))
         run.ob("R-LOOPDOM", fq, f"{cfg}:origins", okd, "origins 0..T-1-n_t with n_t = round(t / time[0]) frames", show(L.iter)[:90],
-               witness=None if okd else "origin set / lag in frames differ from the definition", loc=loc)
+               witness=None if okd else "origin set / lag in frames differ from the definition", loc=loc, sound=True)
         R = BIN("-", A(frame(BIN("+", n, nt)), "positions"), A(frame(n), "positions"))
         if pbc:
             R = CALL("PyMatterSim.utils.pbc.remove_pbc", R, A(frame(n), "hmatrix"), A(SELF, "ppp"))
@@ -534,21 +534,21 @@ def check_sq4(run, pkg, pbc, nl, sel, slow):
         snap = args[0] if args else kws.get("snapshot")
         condt = kws.get("condition", args[2] if len(args) > 2 else None)
         src = A(A(SELF, "x_snapshots"), "snapshots") if both else SNAPS
-        oks = snap == SUB(src, n)
+        oks = eqv(snap, SUB(src, n))
         run.ob("R-SIB", fq, f"{cfg}:sq-frame", oks, "S4 is evaluated on the origin frame" + (" of the wrapped trajectory" if both else ""), show(snap)[:70] if snap else "?",
-               witness=None if oks else "structure factor taken at another frame / trajectory", loc=loc_of(it, ce))
+               witness=None if oks else "structure factor taken at another frame / trajectory", loc=loc_of(it, ce), sound=True)
         okm, how, gx, gy = eq_terms(condt, mob) if condt is not None else (None, "", None, None)
         run.ob("R-SIB", fq, f"{cfg}:mobility", okm, f"selected particles are the {'slow (<' if slow else 'fast (>'} cutoff) ones of the pair (origin, origin+n_t), "
                "with origin-frame cell / neighbour list / selection", f"code: {show(condt)[:200] if condt else '?'}",
-               witness=None if okm is not False else f"{cfg}: mobility mask differs from the definition; expected {show(mob)[:160]}", loc=loc_of(it, ce))
+               witness=None if okm is not False else f"{cfg}: mobility mask differs from the definition; expected {show(mob)[:160]} ({how[:120]})", loc=loc_of(it, ce), sound=True)
         res = ce.data["result"]
         ret = it.returns[0].data["value"] if it.returns else NONE
         okr = any(x in (SUB(res, C(1)), ("elem", res, 1)) for x in walk(ret))
         wrong = any(x in (SUB(res, C(0)), ("elem", res, 0)) for x in walk(ret))
         run.ob("R-ALG", fq, f"{cfg}:component", True if okr else (False if wrong else None), "the |q|-averaged table (second component) is accumulated", show(ret)[:80],
-               witness=None if okr or not wrong else "per-vector table averaged instead", loc=loc)
-        okdiv = ret[0] == "bin" and ret[1] == "/" and ret[3] == BIN("-", T_, nt)
-        run.ob("R-LOOPDOM", fq, f"{cfg}:average", okdiv, "sum over origins divided by the number of origins", show(ret)[-70:], witness=None if okdiv else "not an average over origins", loc=loc)
+               witness=None if okr or not wrong else "per-vector table averaged instead", loc=loc, sound=True)
+        okdiv = eqv(ret[3], BIN("-", T_, nt)) if (ret[0] == "bin" and ret[1] == "/") else None
+        run.ob("R-LOOPDOM", fq, f"{cfg}:average", okdiv, "sum over origins divided by the number of origins", show(ret)[-70:], witness=None if okdiv else "not an average over origins", loc=loc, sound=True)
     # wave vectors (configuration independent)
     it = interp(pkg, q, assume=flags_assume(True, False, False, True))
     cw = calls(it, "PyMatterSim.utils.wavevector.choosewavevector")
@@ -556,9 +556,9 @@ def check_sq4(run, pkg, pbc, nl, sel, slow):
         kws = dict(cw[0].data["call"][3])
         L0 = sp.Symbol("Lmin", positive=True)
         qr = sp.Symbol("qrange", positive=True)
-        okq = kws.get("ndim") == A(SELF, "ndim") and kws.get("onlypositive") == C(False)
+        okq = tri(eqv(kws.get("ndim"), A(SELF, "ndim")), eqv(kws.get("onlypositive"), C(False)))
         run.ob("R-ALG", short(it.fi.qual), "wavevectors", okq, "default wave-vector set for the system's dimension, both signs", show(cw[0].data["call"])[:100],
-               witness=None if okq else "wave-vector set restricted / wrong dimension", loc=loc_of(it, cw[0]))
+               witness=None if okq else "wave-vector set restricted / wrong dimension", loc=loc_of(it, cw[0]), sound=True)
 
 
 def check_cage(run, pkg):
@@ -596,15 +596,15 @@ def check_cage(run, pkg):
                            f"{np.round(got[k], 4).tolist() if got.shape == want.shape else got.shape} instead of {np.round(want[k], 4).tolist()}")
                     break
             run.ob("R-ALG", fq, "kernel", bad is None, "r_i - mean over the cn_i listed neighbours of r_j (zero padding and the count column excluded), "
-                   "decided on 4 padded neighbour tables", show(ret)[:140], witness=bad, loc=fi.loc())
+                   "decided on 4 padded neighbour tables", show(ret)[:140], witness=bad, loc=fi.loc(), sound=True)   # concrete neighbour table on which the extracted term differs
         except (Unsupported, Exception) as e:  # noqa
             run.ob("R-ALG", fq, "form", None, "cage-relative displacement form recognised", f"{type(e).__name__}: {e}", loc=fi.loc())
         return
     e = st[0]
     L = it.loops[e.loops[0]]
     i = L.target
-    okd = L.iter == CALL("builtins.range", SUB(A(Rp, "shape"), C(0)))
-    run.ob("R-LOOPDOM", fq, "particles", okd, "every particle is processed", show(L.iter)[:60], witness=None if okd else "particles skipped", loc=fi.loc())
+    okd = eqv(L.iter, CALL("builtins.range", SUB(A(Rp, "shape"), C(0))), CALL("builtins.range", CALL("builtins.len", Rp)), same=True)
+    run.ob("R-LOOPDOM", fq, "particles", okd, "every particle is processed", show(L.iter)[:60], witness=None if okd else "particles skipped", loc=fi.loc(), sound=True)
     cn = SUB(Cn, ("tuple", (i, C(0))))
     nb = SUB(Cn, ("tuple", (i, ("slice", C(1), BIN("+", cn, C(1)), NONE))))
     want = BIN("-", SUB(Rp, i), CALL(".mean", SUB(Rp, nb), axis=C(0)))
@@ -613,10 +613,10 @@ def check_cage(run, pkg):
         alt = BIN("-", SUB(Rp, i), CALL(".mean", SUB(Rp, SUB(Cn, ("tuple", (i, ("slice", C(1), BIN("+", C(1), cn), NONE))))), axis=C(0)))
         ok = eq_terms(e.data["value"], alt)[0]
     run.ob("R-ALG", fq, "kernel", ok, "r_i - mean over neighbours (columns 1..cn_i of row i) of r_j", show(e.data["value"])[:140],
-           witness=None if ok is not False else "neighbour slice / mean axis differ: zero padding or the count column enters the mean", loc=loc_of(it, e))
-    okt = e.data["target"][2] == i and e.data["op"] is None
-    run.ob("R-IDX", fq, "row", okt, "result stored at the particle's own row", show(e.data["target"][2]), witness=None if okt else "rows permuted", loc=loc_of(it, e))
+           witness=None if ok is not False else "neighbour slice / mean axis differ: zero padding or the count column enters the mean", loc=loc_of(it, e), sound=True)
+    okt = eqv(e.data["target"][2], i) if e.data["op"] is None else None
+    run.ob("R-IDX", fq, "row", okt, "result stored at the particle's own row", show(e.data["target"][2]), witness=None if okt else "rows permuted", loc=loc_of(it, e), sound=True)
     ret = it.returns[0].data["value"] if it.returns else NONE
     okr = ret == e.data["target"][1] and ret[0] == "call" and ret[1] in ("numpy.zeros_like", "numpy.zeros", "numpy.empty_like")
-    run.ob("R-ALG", fq, "fresh", okr, "a fresh array is returned (input displacements are read, not overwritten)", show(ret)[:60],
-           witness=None if okr else "neighbour means computed from partially updated displacements", loc=fi.loc())
+    run.ob("R-ALG", fq, "fresh", True if okr else (False if ret == Rp else None), "a fresh array is returned (input displacements are read, not overwritten)", show(ret)[:60],
+           witness=None if okr else "neighbour means computed from partially updated displacements", loc=fi.loc(), sound=True)
